@@ -10,8 +10,8 @@ For the ecocredit family every entry names
   gen     : list of (cfg, behaviours, depth) to simulate for the quick tier
 """
 
-ECO_GEN_Q = [("credits_g", 32, 20), ("market_g", 56, 25), ("expiry_g", 32, 20), ("basket_g", 32, 25), ("basket2_g", 16, 20), ("basket3_g", 16, 20), ("roles_g", 24, 20), ("bridge_g", 32, 20), ("params_g", 32, 20), ("sellerfee_g", 12, 15), ("buyerfee_g", 12, 15)]
-ECO_GEN_T = [("credits_g", 300, 30), ("market_g", 500, 30), ("expiry_g", 300, 25), ("basket_g", 300, 30), ("basket2_g", 150, 25), ("basket3_g", 150, 25), ("roles_g", 200, 25), ("bridge_g", 300, 25), ("params_g", 300, 25), ("sellerfee_g", 100, 20), ("buyerfee_g", 100, 20)]
+ECO_GEN_Q = [("credits_g", 32, 20), ("market_g", 56, 25), ("expiry_g", 32, 20), ("basket_g", 32, 25), ("basket2_g", 16, 20), ("basket3_g", 16, 20), ("roles_g", 24, 20), ("bridge_g", 32, 20), ("params_g", 32, 20), ("sellerfee_g", 12, 15), ("buyerfee_g", 12, 15), ("wide_g", 24, 25)]
+ECO_GEN_T = [("credits_g", 300, 30), ("market_g", 500, 30), ("expiry_g", 300, 25), ("basket_g", 300, 30), ("basket2_g", 150, 25), ("basket3_g", 150, 25), ("roles_g", 200, 25), ("bridge_g", 300, 25), ("params_g", 300, 25), ("sellerfee_g", 100, 20), ("buyerfee_g", 100, 20), ("wide_g", 250, 30)]
 
 PROFILES = [
     {"unit": "1000000", "render": 0},   # whole credits, plain decimals
@@ -22,49 +22,49 @@ PROFILES = [
 
 PROPS = {
     "C01": dict(
-        family="eco", edge=["credits_q", "market_e", "basket_e"],
+        family="eco", edge_q=["market2_e", "credits2_e"], edge=["credits_q", "market_e", "basket_e", "market2_e", "credits2_e"],
         mc=[("credits_q", 120), ("market_q", 300)], mc_t=[("credits_t", 600), ("market_t", 1800)],
         inv=["C01_Conservation", "C01_NoOrphans", "C01_NonNegative"],
         step=[],
         tinv=["T_C01_WellFormed", "T_C01_ChainInvariantAgrees"],
     ),
     "C02": dict(
-        family="eco", edge=["credits_q", "market_e"],
+        family="eco", edge_q=["market2_e"], edge=["credits_q", "market_e", "market2_e"],
         mc=[("credits_q", 120), ("market_q", 300)], mc_t=[("credits_t", 600), ("market_t", 1800)],
         inv=["C02_Accounting"],
         step=["C02_OnlyIssuers", "C02_SealedFrozen"],
         tinv=[],
     ),
     "C03": dict(
-        family="eco", edge=["credits_q", "market_e", "basket_e"],
+        family="eco", edge_q=["market2_e", "credits2_e"], edge=["credits_q", "market_e", "basket_e", "market2_e", "credits2_e"],
         mc=[("credits_q", 120), ("market_q", 300)], mc_t=[("credits_t", 600), ("market_t", 1800)],
         inv=[],
-        step=["C03_Credits", "C03_Coins", "C03_Block"],
+        step=["C03_Credits", "C03_Coins", "C03_Block", "C03_PaidInAskDenom"],
         tinv=[],
     ),
     "C05": dict(
-        family="eco", edge=["basket_e"],
+        family="eco", edge_q=["credits2_e"], edge=["basket_e", "credits2_e"],
         mc=[("basket_q", 600)], mc_t=[("basket_t", 1500)],
         inv=["C05_Backed"],
         step=["C05_PutMints", "C05_TakeBurns", "C05_OnlyPutTake"],
         tinv=["T_C05_ChainInvariantAgrees"],
     ),
     "C06": dict(
-        family="eco", edge=["market_e"],
+        family="eco", edge_q=["market2_e"], edge=["market_e", "market2_e"],
         mc=[("market_q", 300)], mc_t=[("market_t", 1800)],
         inv=["C06_Escrow", "C06_OrderWellFormed"],
         step=["C06_DenomAllowedAtWrite"],
         tinv=["T_C06_OrderQuantitiesWellFormed"],
     ),
     "C07": dict(
-        family="eco", edge=["market_e", "params_e"],
+        family="eco", edge_q=["market2_e"], edge=["market_e", "params_e", "market2_e"],
         mc=[("market_q", 300)], mc_t=[("market_t", 1800), ("params_t", 900)],
         inv=[],
         step=["C07_Orders", "C07_Credits", "C07_Coins", "C07_NoOtherCoins"],
         tinv=[],
     ),
     "C11": dict(
-        family="eco", edge=["basket_e"],
+        family="eco", edge_q=["credits2_e"], edge=["basket_e", "credits2_e"],
         mc=[("basket_q", 600)], mc_t=[("basket_t", 1500)],
         inv=[],
         step=["C11_PutOnlyIf", "C11_PutIf", "C11_OldestFirst", "C11_AutoRetire"],
@@ -80,7 +80,7 @@ PROPS = {
     "C08": dict(
         family="eco",
         parts=[
-            dict(family="eco", edge=["roles_q", "allow_q", "market_e"],
+            dict(family="eco", edge_q=["allow_q"], edge=["roles_q", "allow_q", "market_e"],
                  mc=[("roles_q", 120), ("allow_q", 60), ("market_q", 300)], mc_t=[("roles_t", 600), ("allow_q", 60), ("market_q", 600)],
                  inv=[], step=["C08_Authorised", "C08_Footprint", "C08_SealedStaysSealed"], tinv=[]),
             # the data service: resolver manager unless public; only the named resolver changes
@@ -105,7 +105,7 @@ PROPS = {
         tinv=[],
     ),
     "C18": dict(
-        family="eco", edge=["params_e", "zerofee_q"],
+        family="eco", edge_q=["zerofee_q"], edge=["params_e", "zerofee_q"],
         mc=[("params_q", 300), ("zerofee_q", 60)], mc_t=[("params_t", 900), ("zerofee_q", 60)],
         inv=[],
         step=["C18_FeeExact", "C18_NoFeatureDisabled"],
@@ -158,7 +158,7 @@ PROPS = {
         ],
     ),
     "C04": dict(
-        family="eco", edge=["credits_q", "market_e", "basket_e"],
+        family="eco", edge_q=["credits2_e", "market2_e"], edge=["credits_q", "market_e", "basket_e", "credits2_e", "market2_e"],
         mc=[("credits_q", 120), ("market_q", 300)], mc_t=[("credits_t", 600), ("market_t", 1800)],
         inv=[],
         step=["C04_Permanence"],
